@@ -1132,6 +1132,7 @@ func TestVerifC03(t *testing.T) {
 				switch op["op"] {
 				case "kidmap", "kids", "entrypath", "save", "vaultpath", "vaultuse":
 				case "apikey", "apilink", "apisignjwt", "apisignjws", "apidecrypt", "apiencval": // REST wrapper leg (crypto/api/v1 harness)
+				case "configure": // wiring leg (zz_verif_c03cfg_test.go)
 				case "new": // the engine draws a new uuid: remember old -> new for later link ops
 					old, _ := op["keyName"].(string)
 					emit(op)
